@@ -233,7 +233,11 @@ class Facts:
         for f in sorted(glob.glob(os.path.join(outdir, "*.json"))):
             name = os.path.basename(f).rsplit("-", 1)[0]
             with open(f) as fh:
-                self.crates[name] = Crate(json.load(fh))
+                j = json.load(fh)
+            if not os.environ.get("VERIF_NO_INLINE"):
+                import inline
+                self.inlined = getattr(self, "inlined", 0) + inline.expand(j)
+            self.crates[name] = Crate(j)
 
     @property
     def lib(self):
